@@ -5,7 +5,8 @@ import (
 	"strings"
 )
 
-var c03Chain = []string{".tail()", ".skip(1)", ".skip(0)", ".take(0)", ".take(1)", ".take(5)", ".first()", ".last()", ".where(true)", ".where(false)",
+var c03Chain = []string{".select(id)", ".select(value)", ".select(extension)", ".select(family)", ".select(given)", ".select(url)", ".where(id.exists())", ".select(system)", ".select(coding)", ".select(text)",
+	".tail()", ".skip(1)", ".skip(0)", ".take(0)", ".take(1)", ".take(5)", ".first()", ".last()", ".where(true)", ".where(false)",
 	".select($this)", ".distinct()", ".exclude(%W)", ".intersect(%W)", ".combine(%W)", ".union(%W)", ".ofType(string)", ".ofType(HumanName)",
 	".where($this is String)", ".where(($this is String).not())", ".where($this is Integer)", ".where($this is HumanName)", ".where($this is Boolean)",
 	".select($this).where($this is Integer)", ".exclude(%W.first())", ".children()", ".descendants()", ".repeat($this)", ".single()", ".idf()", ".trace('x')", "[0]", "[1]", ".y()", ".skip(2)", ".tail().tail()"}
